@@ -190,6 +190,7 @@ def build : Nat → List (Path × H) → Trie H
   | 0, kvs => match kvs with
     | (_, v) :: _ => some (.leaf v)
     | [] => none
+  | _ + 1, [] => none
   | h + 1, kvs =>
     match build h (keysUnder false kvs), build h (keysUnder true kvs) with
     | none, none => none
